@@ -14,6 +14,7 @@ Decides the encoding shape and guard dominance; not the behaviour of urllib beyo
 from __future__ import annotations
 
 import ast
+import re
 
 from ..model import AnchorError, norm, walk_no_nested
 from ..util import cfg_of, node_calls, call_attr, kill_of_container_key
@@ -130,7 +131,7 @@ def run(ctx) -> None:
         raise AnchorError("handle_RegisterEngineMsg: register_engine_data call / success reply not found")
     for n in guarded_targets:
         facts = facts_at(g, n)
-        ok = any("has_connected_engine_id(" in a and not pol for a, pol in facts)
+        ok = any(re.fullmatch(r"[\w\.]*has_connected_engine_id\(\w+\)", a) and not pol for a, pol in facts)
         inst = f"handle_RegisterEngineMsg: {n.text()[:80]}"
         if ok:
             ctx.ok("R38b", inst)
